@@ -1,6 +1,7 @@
 import HpxVerif.Lemmas.BmocAnd
 import HpxVerif.Lemmas.BmocEnc
 import HpxVerif.Lemmas.CoverWF
+import HpxVerif.Lemmas.BmocNot
 
 /-!
 # C09 — every BMOC handed to the user is well formed and its views agree
@@ -11,8 +12,9 @@ raw values fit in 64 bits), `and` preserves well-formedness, **`pack` preserves 
 `to_bmoc_packing` of a well-formed in-range cell list is a well-formed BMOC with strictly increasing entries
 (`packed_bmoc_wf`), and **the cone coverage started from the 12 base cells returns a well-formed BMOC whatever the
 floating-point tests answer** (`cone_coverage_base_start_wf`; with a starting depth the same holds provided the start
-cells returned by `neighbours` are distinct — C04 — by `rootsFold`).  Open statements (validated by correspondence and the
-direct well-formedness oracle on every BMOC the runs produce): `not_wf`, `or_wf`, `xor_wf`, `flat_iter_spec`,
+cells returned by `neighbours` are distinct — C04 — by `rootsFold`), and **`BMOC::not` of a well-formed BMOC is a
+well-formed BMOC** (`bmoc_not_wf`).  Open statements (validated by correspondence and the
+direct well-formedness oracle on every BMOC the runs produce): `or_wf`, `xor_wf`, `flat_iter_spec`,
 `to_ranges_spec`, `deep_size_eq_length`.
 -/
 
@@ -120,5 +122,31 @@ theorem cone_coverage_base_start_wf {α : Type} [Num α] (cfg : Cfg) (depth : Na
         · exact Hpx.Cover.baseCellsFold_wf depth _ (depth + 2) cells hcells
     obtain ⟨g1, g2, g3, _⟩ := Hpx.Cover.packed_bmoc_wf depth hdm cells key.1 key.2
     exact ⟨rfl, g1, g2, g3⟩
+
+/-- **`BMOC::not` hands out a well-formed BMOC**: for a BMOC of depth `≤ 29` with valid entries and sorted disjoint cells,
+    the entries of `not` are valid, its cells are the cell list computed by `not` (sorted, disjoint, in range), and the raw
+    entries are strictly increasing -/
+theorem bmoc_not_wf (b : BMOC) (hdm : b.dmax ≤ 29) (hv : ∀ r ∈ b.entries, ValidRaw b.dmax r)
+    (hw : WF b.dmax (cellsOf b.dmax b.entries)) :
+    (BMOC.not b).dmax = b.dmax ∧ (∀ r ∈ (BMOC.not b).entries, ValidRaw b.dmax r) ∧
+    cellsOf b.dmax (BMOC.not b).entries = notCells (cellsOf b.dmax b.entries) ∧
+    WF b.dmax (cellsOf b.dmax (BMOC.not b).entries) ∧ (BMOC.not b).entries.Pairwise (· < ·) := by
+  have hr : ∀ c ∈ cellsOf b.dmax b.entries, InR c := by
+    intro c hc
+    obtain ⟨r, hr, rfl⟩ := List.mem_map.1 hc
+    obtain ⟨_, _, h3⟩ := raw_of_decode hdm (hv r hr) rfl
+    exact h3
+  obtain ⟨_, w1, r1⟩ := notCells_spec b.dmax hdm _ hw hr
+  have hcells : b.cells = cellsOf b.dmax b.entries := rfl
+  have hent : (BMOC.not b).entries = (notCells (cellsOf b.dmax b.entries)).map (encode b.dmax) := by
+    unfold BMOC.not; rw [hcells]
+  have hco := Hpx.Cover.cellsOf_map_encode b.dmax hdm _ w1.depth_le r1
+  refine ⟨rfl, ?_, by rw [hent, hco], by rw [hent, hco]; exact w1, ?_⟩
+  · intro r hr'
+    rw [hent] at hr'
+    obtain ⟨c, hc, rfl⟩ := List.mem_map.1 hr'
+    exact ⟨c, w1.depth_le c hc, r1 c hc, rfl⟩
+  · rw [hent]
+    exact wf_entries_increasing b.dmax _ w1
 
 end Hpx.C09
